@@ -366,7 +366,16 @@ def rdkit_side(text):
     if mol is None:
         return ("reject", None)
     raw = Chem.MolFromSmiles(text, sanitize=False)
-    if [a.GetIsAromatic() for a in raw.GetAtoms()] != [a.GetIsAromatic() for a in mol.GetAtoms()]:
+
+    def _view(m):
+        return ([a.GetIsAromatic() for a in m.GetAtoms()], [a.GetFormalCharge() for a in m.GetAtoms()],
+                sorted((min(b.GetBeginAtomIdx(), b.GetEndAtomIdx()), max(b.GetBeginAtomIdx(), b.GetEndAtomIdx()),
+                        str(b.GetBondType())) for b in m.GetBonds()))
+
+    # RDKit's sanitisation rewrote the molecule with respect to what is written: aromaticity re-perceived
+    # (Kekule-form ring, de-aromatised lower-case atoms) or a clean-up rule applied (hypervalent N: "n(=O)" /
+    # "N(=O)=O" become charge-separated with an N-O single bond)
+    if _view(raw) != _view(mol):
         # the statement's oracle is the sanitised molecule; the unsanitised reading is kept to attribute a
         # disagreement to the known finding KF-C02-aromaticity (the parser reads the text literally)
         return ("reperceived", mol_smiles_to_graph(text), mol_to_graph(raw))
